@@ -77,10 +77,14 @@ func c02NormAs(src string, doc bool) []htmlcmp.El {
 
 // c02Stable: the HTML5 parser's own serialisation re-parses to the same tree.
 func c02Stable(src string) bool {
-	nodes := htmlcmp.ParseFragment(src)
+	// (judged with scripting enabled: the parser's serialiser writes <noscript> content as raw
+	// text, which is what it is only then - with scripting disabled its own output would not
+	// re-parse to its input, and every <noscript> with text in it would be set aside)
 	if c02NoScript {
-		nodes = htmlcmp.ParseFragmentNoScript(src)
+		c02NoScript = false
+		defer func() { c02NoScript = true }()
 	}
+	nodes := htmlcmp.ParseFragment(src)
 	if c02IsDoc(src) {
 		nodes = htmlcmp.ParseDocument(src)
 	}
@@ -457,6 +461,7 @@ func c02Enumerate(tier string, emit func(core.Case)) {
 		`<math><mi href="a" xlink:href="b" xml:space="preserve" space="x">x</mi></math>`, `<svg><image xlink:href="a" href="b2" xml:base="/b" base="c"></image></svg>`, `<p lang="de" xml:lang="en">html</p>`,
 		`<html-view>x</html-view><p>y</p>`, `<htmlx a="b">k</htmlx>`,
 		`<noscript><img src="x"></noscript>`, `<div><noscript><p>a &amp; b</p><a href="/nojs?a=1&amp;b=2">l</a></noscript></div>`, `<noscript>plain &lt;text&gt;</noscript>`,
+		`<p>Note: <noscript>use &lt;b&gt;bold&lt;/b&gt;</noscript> now</p>`, `<noscript>allow &lt;script&gt; &amp;amp; reload</noscript>`, `<pre>a <noscript>&lt;i&gt;</noscript></pre>`, `<div><noscript>t &amp;lt; u<b>e</b></noscript></div>`,
 		`<pre><script>if (a<b) x</script></pre>`, `<pre><style>p > q {}</style></pre>`, `<div><pre>a <script>var s = "<b>";</script> b</pre></div>`,
 	} {
 		emit(&c02Case{Part: "text", Src: src})
